@@ -10,6 +10,16 @@ CLAIMED = {
         text="For every input (all T>0, finite energies, positive volumes, N>=0, all stresses, all u in [0,1)) the real evaluate() of the five criteria returns exactly u < min(1, A) with the textbook A, consumes one draw, spends one energy evaluation, writes nothing but IsotensionCriteria.strain_tensor, and cannot raise (exp/log/sqrt/division side conditions); hydrostatic isotension == isobaric for every cell pair; driver setters forward to the context. Exact real arithmetic.",
         note="float=real (A2); exp/log/sqrt uninterpreted with ground axiom instances (A3); np.linalg.inv as uninterpreted inverse with inv(A)@A=1 (regular cells); ASE accessors (get_potential_energy, get_volume, cell.volume, get_masses) as scalar-view contracts; |delta|>1 exchanges not covered; native stand-in is bounded and not counted as proof.",
         design="§7 C02"),
+    "C18": dict(
+        technique="contract-based deductive verification: the real AdaptiveForceBias.__init__/update_delta/scheme and update functions executed symbolically (pointwise array abstraction), clauses of the statement as postconditions over delta(v); tanh/exp/atanh/log uninterpreted + ground axiom/lemma instances; native replay",
+        text="For all min<=max, reference variance >0, non-negative finite variance (scalar or per coordinate), both schemes and both update functions: delta in [min,max], = max at 0, = midpoint at the reference variance, antitone in the variance, below min+eps*(max-min) beyond an explicit threshold; without committee data or without a calculator the reference variance is used (full (n,3) array in the forces scheme). Exact reals.",
+        note="A2/A3; committee statistics (np.std>=0, finite positive mean |F|) are the trusted numpy contract; (n,3) arrays by the pointwise abstraction (one generic coordinate); lemma instances tanh x = 1-2/(e^{2x}+1), e^x e^{-x}=1.",
+        design="§7 C18"),
+    "C10": dict(
+        technique="contract-based deductive verification: loop-free calculate() bodies executed symbolically over fixed-shape tensors; geometry postconditions; symmetry by a second run on a generator scripted with a measure-preserving involution of the draws; polynomial certificates (z3 simplifier / sympy) for rigidity; expm/euler_rotate as trusted contracts; native replay + bounded stand-in",
+        text="Ball/Sphere/Box norm and component bounds, full-period azimuth and full-range cosine draws, Translation centroid = u@cell with u uniform in [0,1)^3, rigidity of Translation/Rotation/TranslationRotation and centre-of-mass conservation of Rotation (k=3 explicit rows), Haar Euler angles in degrees, composite = sum of parts each called once in order; Isotropic = positive scalar*identity (log-uniform), Shape volume preserving, default-mask gradients symmetric positive definite, identity where masked out, proposals symmetric under negation of the draws. All values symbolic, exact reals.",
+        note="scipy expm and ase euler_rotate/__getitem__ are trusted contracts (pyvc/models/geom_model.py); group size bounded to 3 explicit rows; null sets of half-open supports excluded; inverse-rotation Euler identity trusted; IsotropicDeformation requires max_value <= 700 (math.exp overflow).",
+        design="§7 C10"),
 }
 PENDING_REASON = "check not yet registered in this revision (under construction; see DESIGN.md §0/§7 for the plan)"
 
